@@ -189,6 +189,12 @@ def gen_plan(rng, tier, idx, opts):
             r = rng.random()
             if r < 0.45 or not live:
                 ops.append({"op": "rep", "set": nsets, "obs": {nm: gen_obs(rng, nm, mode) for nm in names}})
+                if len(names) > 1 and rng.random() < 0.4:
+                    ops[-1]["order"] = rng.sample(names, len(names))      # the same names, added in another order
+                if rng.random() < 0.25:
+                    # the counter the runner adds to a repetition ('num_skipped_reps'): merged when present, created when the
+                    # accumulator lacks it; it may sit anywhere among the names
+                    ops[-1]["skipped"] = {"v": rng.randint(0, 3), "pos": rng.randint(0, len(names))}
                 live.append(nsets)
                 nsets += 1
             elif r < 0.55:
@@ -365,6 +371,7 @@ def _set_snapshot(s):
 def _exec_set(plan, res, log, pid, mode):
     names = plan["names"]
     sets, model = {}, {}       # model: set id -> {name: [obs_list per slot]}
+    skipm = {}                 # set id -> value of the runner's 'num_skipped_reps' counter (None: absent)
     donated = set()
     merges = 0
     for step, op in enumerate(plan["ops"]):
@@ -375,7 +382,12 @@ def _exec_set(plan, res, log, pid, mode):
             if kind == "rep":
                 s = SimulationResults()
                 acc_ = bool(plan.get("accumulate"))
-                for nm in names:
+                sk = op.get("skipped")
+                for pos_, nm in enumerate(list(op.get("order") or names) + [None]):
+                    if sk is not None and pos_ == sk["pos"]:
+                        s.add_new_result("num_skipped_reps", Result.SUMTYPE, sk["v"])
+                    if nm is None:
+                        break
                     o = op["obs"][nm]
                     if nm == "CHOICE":
                         s.add_result(Result.create(nm, TYPES[nm], o[0], CHOICE_NUM, accumulate_values=acc_))
@@ -387,10 +399,12 @@ def _exec_set(plan, res, log, pid, mode):
                         s.add_new_result(nm, TYPES[nm], o[0])
                 sets[op["set"]] = s
                 model[op["set"]] = {nm: [[op["obs"][nm]]] for nm in names}
+                skipm[op["set"]] = None if sk is None else sk["v"]
                 dst = op["set"]
             elif kind == "empty":
                 sets[op["set"]] = SimulationResults()
                 model[op["set"]] = {}
+                skipm[op["set"]] = None
                 dst = op["set"]
             elif kind == "merge_all":
                 d, s_ = op["dst"], op["src"]
@@ -404,6 +418,9 @@ def _exec_set(plan, res, log, pid, mode):
                     bump(res["probes"], "merge_all_into_empty_set")
                 with op_time_limit(3.0):
                     sets[d].merge_all_results(sets[s_])
+                if skipm.get(s_) is not None:
+                    skipm[d] = (skipm.get(d) or 0) + skipm[s_]
+                    bump(res["probes"], "special_skip_counter_merged")
                 if not model[d]:
                     model[d] = {nm: [list(model[s_][nm][0])] for nm in model[s_]}
                 else:
@@ -417,6 +434,8 @@ def _exec_set(plan, res, log, pid, mode):
                     continue
                 if model[d] and set(model[d]) != set(model[s_]):
                     continue
+                if skipm.get(d) is not None or skipm.get(s_) is not None:
+                    continue          # the runner's skip counter is only ever merged
                 with op_time_limit(3.0):
                     sets[d].append_all_results(sets[s_])
                 donated.add(s_)       # append shares the result objects by design; only MERGED-in operands are promised untouched
@@ -444,6 +463,11 @@ def _exec_set(plan, res, log, pid, mode):
         for a, s in sets.items():
             if a in donated:
                 continue
+            has_sk = "num_skipped_reps" in s.get_result_names()
+            if (skipm.get(a) is not None) != has_sk or (has_sk and s["num_skipped_reps"][-1]._value != skipm[a]):
+                add_violation(res, pid + ".grouping", step, "set %s: skip counter %s, the merged repetitions give %s" % (
+                    a, s["num_skipped_reps"][-1]._value if has_sk else "absent", skipm.get(a)), {"op": kind, "level": "set", "type": "skip_counter"})
+                break
             for nm, slots in model[a].items():
                 try:
                     lst = s[nm]
